@@ -199,12 +199,14 @@ CLAIMED.update({
         "matched/total on generated trees, 9 metafile kinds, multi-damage sets.",
         RCTB, "DESIGN.md section 5 C16"),
     "C19": (
-        "Coq proof (lexical resolution of validated components stays under the destination; validator = forall safe_comp) + extracted-model correspondence + hostile-metafile search",
+        "Coq proof (lexical resolution of validated components stays under the destination; validator = forall safe_comp; the element test REGENERATED from rebuild.py is safe_comp: certified table checker + generated instance) + extracted-model correspondence + hostile-metafile search",
         "Machine-checked proof that for every destination and every list of path elements accepted by the model of Metadata._check_parts (not '', '.', "
         "'..', no separator, no NUL) the lexically resolved target is the destination extended by exactly those elements, hence inside it; that a list "
         "with any unsafe element is refused before anything is written; that the model of Metadata.extract / _parse_tree (Model/RebuildMeta.v) validates "
         "the name, EVERY element of every v1 path whatever other keys the entry carries, and EVERY key of the v2 file tree at every depth, so that every "
-        "copy target of an accepted metafile lies inside the destination; and that without the validator the statement is false (witness).  Tie: "
+        "copy target of an accepted metafile lies inside the destination; and that without the validator the statement is false (witness).  The element "
+        "test itself is read from the source on every run (gen/gen_pathcheck.py -> Gen/GenPathCheck.v: refused strings and characters, str required, plain "
+        "function looping over its whole argument, every call a statement on a bare name or one-element list) and proved equal to safe_comp for EVERY string.  Tie: "
         "_check_parts vs safe_comp, normpath(join) vs resolve and Metadata(...) vs the extracted extract model (refusal <-> none, entries) on all generated "
         "sequences and shapes; search: all hostile sequences of <= 3 (quick) / 4 (thorough) "
         "elements in v1 paths, v2 tree keys and names with matching candidates present, snapshotting everything outside the destination.",
